@@ -8,7 +8,7 @@ func checkC03(c *Ctx, r *Report) {
 		"T-DELEG: every reader-path decoder that delegates calls the SR decoder registered for the same box types with (hdr, startPos, NewFixedSliceReader(readBoxBody(r, hdr))); " +
 		"T-WRAP: every Encode(w) of wrapper shape allocates exactly int(recv.Size()), calls recv.EncodeSW on it, checks the error and writes sw.Bytes(); " +
 		"W-DD / W-EE: separately written decoder pairs and non-wrapper encoder pairs have the same wire layout per configuration (layout engine). " +
-		"S-COND: where a type has a hand-written Encode beside EncodeSW (35 types), both branch on the same tests of struct fields against constants (up to negation) and on the same bool fields. O-POS: the start position DecodeFile and DecodeFileSR hand to the next box decoder (recorded start positions are part of the property) is derived from the input position, never from the re-calculated Box.Size(). S-SIZEDEP: every receiver field Size() reads is read by EncodeSW too (Encode allocates Size() bytes and runs EncodeSW: a field only the size looks at makes one of the two paths fail where the other succeeds). R3-OBS-STALE: a function that calls one of the two observers accepted as impure (MdatBox.Size may switch LargeSize on) does not use, after the call, a value of that field loaded before it, so Encode and EncodeSW write the header form Size() has just decided. S-CLONE: the `switch boxType` statement (mdat ordering rules, second-stage senc parsing of moof boxes) is identical in DecodeFile and DecodeFileSR after normalisation. Decides structural agreement of the sibling paths; does not decide numeric equality of recorded positions or of error texts."
+		"S-COND (header writers): EncodeHeader / EncodeHeaderSW and EncodeHeaderWithSize / EncodeHeaderWithSizeSW branch on the same comparisons with the same constants. S-COND: where a type has a hand-written Encode beside EncodeSW (35 types), both branch on the same tests of struct fields against constants (up to negation) and on the same bool fields. O-POS: the start position DecodeFile and DecodeFileSR hand to the next box decoder (recorded start positions are part of the property) is derived from the input position, never from the re-calculated Box.Size(). S-SIZEDEP: every receiver field Size() reads is read by EncodeSW too (Encode allocates Size() bytes and runs EncodeSW: a field only the size looks at makes one of the two paths fail where the other succeeds). R3-OBS-STALE: a function that calls one of the two observers accepted as impure (MdatBox.Size may switch LargeSize on) does not use, after the call, a value of that field loaded before it, so Encode and EncodeSW write the header form Size() has just decided. S-CLONE: the `switch boxType` statement (mdat ordering rules, second-stage senc parsing of moof boxes) is identical in DecodeFile and DecodeFileSR after normalisation. Decides structural agreement of the sibling paths; does not decide numeric equality of recorded positions or of error texts."
 	r.Assume("box types returned through dynamic calls are not resolved (none today)")
 	dec, decSR := ruleTREG(c, r)
 	sep := ruleTDELEG(c, r, dec, decSR)
@@ -18,6 +18,9 @@ func checkC03(c *Ctx, r *Report) {
 	ruleSMEMBEREnc(c, r)
 	ruleSCloneSwitch(c, r, "mp4", "DecodeFile", "DecodeFileSR", "boxType")
 	ruleSizeDependsEncoded(c, r, map[string]bool{"mp4": true})
+	if n := ruleHeaderEncoderPairs(c, r); n < 2 {
+		r.Undecided("S-COND", "scope-headers", "", "the header writer twins EncodeHeader[SW] / EncodeHeaderWithSize[SW] not found")
+	}
 	if n := ruleEncoderConditions(c, r); n < 30 {
 		r.Undecided("S-COND", "scope", "", "hand-written Encode/EncodeSW pairs not found")
 	}
